@@ -150,15 +150,37 @@ def loops_rule(prog, rep):
             if cnt != 1:
                 bad.append((p.lines[-3:], cnt))
         rep.check(not bad, "LOOPS", fi.short, f"one `{sink}` per iteration", f"{len(sums)} paths", f"a non-raising path through the loop body stores {bad[0][1] if bad else ''} values (lines {bad[0][0] if bad else ''}): an argument / entry is dropped or duplicated", fi.loc(lp))
-        # the stored value is the parse of the token just scanned
-        t = norm(lp)
-        if cname == "QFunction":
-            ok = "(arg_t, arg), args_str = _parse_token(args_str, namespace)" in t and "args.append(arg_t.parse(arg, namespace))" in t
-        elif cname == "QList":
-            ok = "(val_t, val_str), entries_str = _parse_token(entries_str, namespace)" in t and "val = val_t.parse(val_str, namespace)" in t and "ls.append(val)" in t
-        else:
-            ok = "(val_t, val_str), entries_str = _parse_token(entries_str, namespace)" in t and "val = val_t.parse(val_str, namespace)" in t and "d[key] = val" in t and "key = QString.parse(key_str, {}).value" in t
-        rep.check(ok, "LOOPS", fi.short, "value = parse of the scanned token", "", "the stored value is not the parse of the token that was just scanned (token class / text / namespace mismatch)", fi.loc(lp))
+        # the stored value is the parse of the token just scanned: (T, K), S = _parse_token(S, ns) ... sink(T.parse(K, ns))
+        from ..trace import resolve
+
+        scans = [st for st in lp.body if isinstance(st, ast.Assign) and isinstance(st.value, ast.Call) and norm(st.value.func) == "_parse_token" and isinstance(st.targets[0], ast.Tuple) and len(st.targets[0].elts) == 2 and isinstance(st.targets[0].elts[0], ast.Tuple) and len(st.targets[0].elts[0].elts) == 2]
+        ok = False
+        if scans:
+            last = scans[-1]  # the value scan (a dict entry scans its key first)
+            T, K = [norm(x) for x in last.targets[0].elts[0].elts]
+            S = norm(last.targets[0].elts[1])
+            ok = len(last.value.args) == 2 and norm(last.value.args[0]) == S and norm(last.value.args[1]) == "namespace"
+            want_call = f"{T}.parse({K}, namespace)"
+            stored = None
+            for x in ast.walk(lp):
+                if sink.endswith(".append") and isinstance(x, ast.Call) and norm(x.func) == sink and len(x.args) == 1:
+                    stored = x.args[0]
+                if not sink.endswith(".append") and isinstance(x, ast.Assign) and isinstance(x.targets[0], ast.Subscript) and norm(x.targets[0].value) == sink.split("[")[0]:
+                    stored = x.value
+            if stored is not None:
+                sv = stored
+                if isinstance(sv, ast.Name):
+                    defs = [st for st in lp.body if isinstance(st, ast.Assign) and norm(st.targets[0]) == sv.id]
+                    sv = defs[-1].value if defs else sv
+                ok = ok and norm(sv) == want_call
+            else:
+                ok = False
+            if cname == "QDict" and ok:
+                ks = scans[0]
+                KT, KK = [norm(x) for x in ks.targets[0].elts[0].elts]
+                keydefs = [st for st in lp.body if isinstance(st, ast.Assign) and isinstance(st.value, ast.Attribute) and norm(st.value) == f"QString.parse({KK}, {{}}).value"]
+                sub = [x for x in ast.walk(lp) if isinstance(x, ast.Assign) and isinstance(x.targets[0], ast.Subscript) and norm(x.targets[0].value) == "d"]
+                ok = len(scans) == 2 and bool(keydefs) and bool(sub) and norm(sub[0].targets[0].slice) == norm(keydefs[0].targets[0])
         rets = [r for r in walk_own(fi.node) if isinstance(r, ast.Return)]
         want = {"QFunction": "QFunction(name, args)", "QList": "QList(ls)", "QDict": "QDict(d)"}[cname]
         rep.check(len(rets) == 1 and norm(rets[0].value) == want, "LOOPS", fi.short, "result", want, f"parse returns `{norm(rets[0].value) if rets else ''}`", fi.loc())
@@ -203,7 +225,10 @@ def assignment_rule(prog, rep):
         if len(calls_p) == 1 and len(calls_i) == 1:
             p, i = calls_p[0], calls_i[0]
             asg = parent(p)
-            ok = norm(p.args[0]) == st and norm(p.args[1]) == "namespace" and isinstance(asg, ast.Assign) and norm(asg.targets[0]) in ("(var, val)", "var, val") and [norm(a) for a in i.args] == ["var", "val", "namespace", "datastore"] and p.lineno < i.lineno
+            ok = norm(p.args[0]) == st and norm(p.args[1]) == "namespace" and isinstance(asg, ast.Assign) and isinstance(asg.targets[0], ast.Tuple) and len(asg.targets[0].elts) == 2
+            if ok:
+                a_, b_ = [norm(x) for x in asg.targets[0].elts]
+                ok = [norm(a) for a in i.args] == [a_, b_, "namespace", "datastore"] and p.lineno < i.lineno
             # same block, consecutive
             blk = None
             for n in ast.walk(lp):
